@@ -1,2 +1,121 @@
-(* placeholder, replaced below *)
-From PP Require Import Model.C46.
+(* C46 — property theorems only.  Model: PP.Model.C46 (transcription of
+   SparseNdArray.add/get after the repair commit); proofs: PP.Proofs.C46.
+
+   V is the value type (one row of the value array) with the monoid laws of exact
+   addition; [coord] = integer tuples; [wf] = every add has as many values as coordinates
+   and every read asks for at least one coordinate.  [drun] is the reference: a plain
+   dictionary fed with the (coordinate, value) pairs of every batch ONE BY ONE, in batch
+   order (additive: d[c] = d[c] + v if c in d else v; overwrite: d[c] = v, so the last
+   occurrence wins). *)
+From Coq Require Import List ZArith Arith Lia.
+Import ListNotations.
+From PP Require Import Model.C46 Proofs.C46.
+
+(* For EVERY history of additive / overwriting batch insertions (duplicates inside and
+   across batches, batches of any size and order, any coordinate dimension) and reads:
+   the value the array holds for every coordinate is the one the dictionary holds, and
+   every call answers as the dictionary does (reads: the same values, or ValueError
+   exactly when the dictionary lacks one of the coordinates). *)
+Theorem C46_refines_dict :
+  forall (V : Type) (vzero : V) (vadd : V -> V -> V),
+    (forall x y z, vadd x (vadd y z) = vadd (vadd x y) z) ->
+    (forall x, vadd vzero x = x) -> (forall x, vadd x vzero = x) ->
+    forall ops : list (op V),
+      Forall wf ops ->
+      (forall c, abs (fst (run vzero vadd empty ops)) c
+                 = dget (fst (drun vzero vadd [] ops)) c) /\
+      map proj (snd (run vzero vadd empty ops)) = snd (drun vzero vadd [] ops).
+Proof. exact refines_dict. Qed.
+Print Assumptions C46_refines_dict.
+
+(* The same from ANY storage state whose coordinates are duplicate free and any
+   dictionary holding the same values (not only from the empty array). *)
+Theorem C46_refines_dict_from_any_state :
+  forall (V : Type) (vzero : V) (vadd : V -> V -> V),
+    (forall x y z, vadd x (vadd y z) = vadd (vadd x y) z) ->
+    (forall x, vadd vzero x = x) -> (forall x, vadd x vzero = x) ->
+    forall (ops : list (op V)) (s : st V) (d : dict V),
+      NoDup (coords s) -> length (coords s) = length (values s) ->
+      (forall c, abs s c = dget d c) -> Forall wf ops ->
+      (forall c, abs (fst (run vzero vadd s ops)) c
+                 = dget (fst (drun vzero vadd d ops)) c) /\
+      map proj (snd (run vzero vadd s ops)) = snd (drun vzero vadd d ops).
+Proof. exact refines_dict_from. Qed.
+Print Assumptions C46_refines_dict_from_any_state.
+
+(* Reading, after any history, a list of coordinates that contains one never inserted
+   raises ValueError. *)
+Theorem C46_missing_raises :
+  forall (V : Type) (vzero : V) (vadd : V -> V -> V),
+    (forall x y z, vadd x (vadd y z) = vadd (vadd x y) z) ->
+    (forall x, vadd vzero x = x) -> (forall x, vadd x vzero = x) ->
+    forall (ops : list (op V)) (cs : list coord) (c : coord),
+      Forall wf ops -> In c cs -> ~ In c (inserted ops) ->
+      snd (step vzero vadd (fst (run vzero vadd empty ops)) (OpGet cs)) = OErr ValueErr.
+Proof. exact missing_raises. Qed.
+Print Assumptions C46_missing_raises.
+
+(* Reading, after any history, coordinates that were all inserted never raises and
+   returns, position by position (repeated coordinates allowed), the dictionary's value. *)
+Theorem C46_inserted_readable :
+  forall (V : Type) (vzero : V) (vadd : V -> V -> V),
+    (forall x y z, vadd x (vadd y z) = vadd (vadd x y) z) ->
+    (forall x, vadd vzero x = x) -> (forall x, vadd x vzero = x) ->
+    forall (ops : list (op V)) (cs : list coord),
+      Forall wf ops -> (forall c, In c cs -> In c (inserted ops)) ->
+      let d := fst (drun vzero vadd [] ops) in
+      (forall c, In c cs -> dget d c <> None) /\
+      snd (step vzero vadd (fst (run vzero vadd empty ops)) (OpGet cs))
+      = OVals (map (fun c => match dget d c with Some v => v | None => vzero end) cs).
+Proof. exact inserted_readable. Qed.
+Print Assumptions C46_inserted_readable.
+
+(* A coordinate is held exactly when some batch of the history contained it. *)
+Theorem C46_held_iff_inserted :
+  forall (V : Type) (vzero : V) (vadd : V -> V -> V),
+    (forall x y z, vadd x (vadd y z) = vadd (vadd x y) z) ->
+    (forall x, vadd vzero x = x) -> (forall x, vadd x vzero = x) ->
+    forall (ops : list (op V)) (c : coord),
+      Forall wf ops ->
+      (abs (fst (run vzero vadd empty ops)) c = None <-> ~ In c (inserted ops)).
+Proof. exact held_iff_inserted. Qed.
+Print Assumptions C46_held_iff_inserted.
+
+(* Storage invariant after any history: stored coordinates are pairwise different and
+   there is one value per stored coordinate (what get's ravel(ind_list) relies on). *)
+Theorem C46_storage_invariant :
+  forall (V : Type) (vzero : V) (vadd : V -> V -> V),
+    (forall x y z, vadd x (vadd y z) = vadd (vadd x y) z) ->
+    (forall x, vadd vzero x = x) -> (forall x, vadd x vzero = x) ->
+    forall ops : list (op V),
+      Forall wf ops ->
+      NoDup (coords (fst (run vzero vadd empty ops))) /\
+      length (coords (fst (run vzero vadd empty ops)))
+      = length (values (fst (run vzero vadd empty ops))).
+Proof. exact storage_invariant. Qed.
+Print Assumptions C46_storage_invariant.
+
+(* Non-vacuity: Z is such a monoid; a well-formed history with duplicates inside and
+   across batches (the two inputs that failed before the repair are its first batches),
+   what the array answers and what the dictionary holds. *)
+Example C46_nonvacuous :
+  let ops := [OpAdd false [[2]; [0]; [1]] [9; 2; 8];
+              OpAdd true [[0]; [1]; [2]; [1]; [7]] [1; 2; 3; 10; 4];
+              OpGet [[2]; [0]; [1]; [7]; [1]];
+              OpAdd false [[7]; [7]; [0]] [5; 6; -1];
+              OpGet [[7]; [0]];
+              OpGet [[0]; [5]]]%Z in
+  Forall wf ops /\
+  snd (run 0%Z Z.add empty ops)
+  = [OPerm [1; 2; 0]%nat; OPerm [4]%nat; OVals [12; 3; 20; 4; 20]%Z; OPerm [];
+     OVals [6; -1]%Z; OErr ValueErr] /\
+  map (dget (fst (drun 0%Z Z.add [] ops))) [[0]; [1]; [2]; [7]; [5]]%Z
+  = [Some (-1); Some 20; Some 12; Some 6; None]%Z /\
+  ~ In [5]%Z (inserted ops).
+Proof.
+  split; [|split; [|split]].
+  - repeat constructor; cbn; try reflexivity; try discriminate.
+  - vm_compute. reflexivity.
+  - vm_compute. reflexivity.
+  - cbn. intros H. repeat (destruct H as [H|H]; [discriminate|]). exact H.
+Qed.
